@@ -61,7 +61,7 @@ VERUS_TRUST = [
 ZNX_FUNCS = ['znx_add_ref', 'znx_add_assign_ref', 'znx_sub_ref', 'znx_sub_assign_ref', 'znx_sub_negate_assign_ref', 'znx_negate_ref',
              'znx_negate_assign_ref', 'znx_copy_ref', 'znx_zero_ref', 'znx_rotate', 'znx_automorphism_ref', 'znx_switch_ring_ref']
 KERNEL_QUICK = [1, 12, 17, 52, 62]
-KERNEL_ALL = list(range(1, 63))
+KERNEL_ALL = [1, 2, 3, 4, 8, 12, 16, 17, 24, 31, 32, 33, 48, 50, 52, 60, 61, 62]   # thorough tier (every radix 1..62 has a harness in kx/cpu_ref/lib.rs; this spread keeps the run under an hour)
 
 KPARTS = ['first', 'middle', 'final', 'digit']
 
@@ -110,7 +110,7 @@ PROPS['C11'] = dict(
 PROPS['C08'] = dict(
     level='proof',
     technique='Kani function-level contracts on the real digit/carry and step kernels (uniform law x_out + c_out*2^b == a*2^lsh + c_in) per radix, imported as trait contracts into a Verus value theorem for vec_znx_normalize_assign',
-    level_text='Kernel law: complete in all 64-bit values, lsh and carries for each radix constant (quick: 7 radices, thorough: all 1..62). Limb loop: unbounded Verus proof that in-place normalisation preserves the torus value mod 1 and leaves every digit balanced.',
+    level_text='Kernel law: complete in all 64-bit values, lsh and carries for each radix constant (quick: 5 radices, thorough: 18 radices spread over 1..62). Limb loop: unbounded Verus proof that in-place normalisation preserves the torus value mod 1 and leaves every digit balanced.',
     level_note='The Verus theorem imports the kernel law as trait contracts (cross-engine chain); out-of-place/cross-radix normalisation and shifts are covered only by bounded harnesses (N=1, small radices, constant offsets) reported under bounded_checks; encode/decode are not covered.',
     units=kernel_units() + [V('vec_znx_normalize'),
         K('poulpy-cpu-ref', 'verif_kani::c08_shift', ['c08_shift__b4_s2_k0', 'c08_shift__b4_s2_k5', 'c08_shift__b4_s2_k9'], cls='bounded', timeout=900,
@@ -140,10 +140,11 @@ PROPS['C12'] = dict(
           'c12_take_slice_default_u8', 'c12_take_slice_default_i64', 'c12_take_slice_default_f64', 'c12_take_slice_default_i128'], cls='complete', timeout=600,
           functions=['hal_defaults::scratch::take_slice_aligned', 'HalScratchDefaults::take_slice_default', 'HalScratchDefaults::scratch_available_default', 'HalScratchDefaults::scratch_from_bytes_default']),
         V('vec_znx_ring'), V('vec_znx_normalize'), V('hal_glue'),
-        K('poulpy-cpu-ref', 'verif_kani::c12_window', ['c12_exact_window_coeff_ops__n4'], cls='bounded', timeout=1500,
-          bound='N=4 (limb byte size 32: not a multiple of the 64-byte alignment), size 2',
+        K('poulpy-cpu-ref', 'verif_kani::c12_window', [f'c12_window_{op}__n4' for op in ('normalize_assign', 'rotate_assign', 'automorphism_assign', 'mul_xp_minus_one_assign', 'lsh_assign', 'rsh_assign')],
+          cls='bounded', timeout=1200, bound='N=4 (limb byte size 32: not a multiple of the 64-byte alignment), size 2',
           functions=['HAL traits VecZnx{Normalize,Rotate,Automorphism,MulXpMinusOne,Lsh,Rsh}Assign with a scratch of exactly the companion *_tmp_bytes; two runs with different scratch contents']),
-        K('poulpy-cpu-ref', 'verif_kani::c12_window', ['c12_exact_window_coeff_ops__n2', 'c12_exact_window_coeff_ops__n8'], cls='bounded', tier='thorough', timeout=1500, bound='N=2, N=8'),
+        K('poulpy-cpu-ref', 'verif_kani::c12_window', ['c12_window_normalize_assign__n2', 'c12_window_rotate_assign__n2', 'c12_window_rsh_assign__n2', 'c12_window_normalize_assign__n8', 'c12_window_rsh_assign__n8'],
+          cls='bounded', tier='thorough', timeout=1200, bound='N=2, N=8'),
     ],
     trusted_base=VERUS_TRUST,
     assumptions=['buffer lengths <= 192 bytes in the allocator harnesses (the code is length-generic: no loop, pure pointer arithmetic)'],
@@ -252,11 +253,11 @@ PROPS['C14'] = dict(
 PROPS['C19'] = dict(
     level='other',
     technique='Kani bounded contract check of the real GLWE decompression: mask columns equal the seeded stream in encryption order, body copied, receiver contents irrelevant (ChaCha8 stream abstracted to a symbolic tape)',
-    level_text='Bounded: N = 2, rank 2, size 2, seed and every stream word symbolic: column 0 is the stored body, mask column i / limb j / coefficient k equals draw (i-1)*size*N + j*N + k (columns 1..rank in order on one stream seeded by the stored seed), exactly rank*size*N draws, stale receiver contents do not matter.',
+    level_text='Bounded: N = 2, rank 2 / size 2 and rank 3 / size 1, seed and every stream word symbolic: column 0 is the stored body, mask column i / limb j / coefficient k equals draw (i-1)*size*N + j*N + k (columns 1..rank in order on one stream seeded by the stored seed), exactly rank*size*N draws, stale receiver contents do not matter.',
     level_note='The symbolic tape replaces ChaCha8 (Source::new runs cpuid: unsupported); that the encryption side fills columns 1..rank in the same order is a syntactic fact of glwe_encrypt_sk_internal, not checked here; body equality needs the DFT and is undecided; GGLWE/GGSW/key decompression not covered.',
     explanation=BOUNDED_EXPL,
-    units=[K('poulpy-cpu-ref', 'verif_kani', ['c19_glwe_decompress_mask_order__n2_rank2_size2'], cls='bounded', timeout=1500,
-             bound='N=2, rank=2, size=2', functions=['GLWEDecompress::decompress_glwe', 'vec_znx_fill_uniform_ref', 'VecZnx::fill_uniform'])],
+    units=[K('poulpy-cpu-ref', 'verif_kani', ['c19_glwe_decompress_mask_order__n2_rank2_size2', 'c19_glwe_decompress_mask_order__n2_rank3_size1'], cls='bounded', timeout=1500,
+             bound='N=2, (rank, size) in {(2,2), (3,1)}', functions=['GLWEDecompress::decompress_glwe', 'vec_znx_fill_uniform_ref', 'VecZnx::fill_uniform'])],
     trusted_base=[FMT_STUB],
     assumptions=['stream abstraction: every u64 drawn from ChaCha8 is an independent symbolic value'],
     remainder='bit-identity of the body with standard encryption (DFT), GGLWE/GGSW/switching/automorphism/tensor/blind-rotation key decompression, serialisation after compression',
@@ -306,18 +307,17 @@ AVX_STUBS = 'lane-wise models (Intel SDM) of _mm256_srlv_epi64, _mm256_sllv_epi6
 PROPS['C10'] = dict(
     level='other',
     technique='Kani equivalence check: the real AVX2 kernel and the real reference kernel run on the same symbolic inputs and must produce bit-identical outputs',
-    level_text='Bounded in length (3, 5, 9 elements = SIMD body + every tail shape; ring switches 4..16), complete in element values (inside the no-overflow domain of the reference) and in lsh; radix constant per harness: add/sub/negate families, multiplication by powers of two (k in -62..20), ring switching, digit extraction and all 13 normalisation step kernels.',
+    level_text='Bounded in length (3, 5, 9 elements = SIMD body + every tail shape; ring switches 4..16), complete in element values (inside the no-overflow domain of the reference) and in lsh; radix constant per harness: add/sub/negate families, multiplication by powers of two (k in -62..20), ring switching and digit extraction (quick tier); the 13 normalisation step kernels (thorough tier).',
     level_note='The AVX module is mounted under cfg(kani) because the enable-avx feature cannot be built by cargo-kani; seven intrinsics are replaced by lane-wise models (trusted). znx_automorphism_avx, the FFT/NTT AVX kernels, and scheme-level pipelines are not covered.',
     explanation=BOUNDED_EXPL,
     units=[K('poulpy-cpu-avx', 'verif_kani', ['c10_add_family__len5', 'c10_add_family__len9', 'c10_add_family__len3', 'c10_mul_pow2__len5', 'c10_switch_ring__8_to_8',
-             'c10_switch_ring__16_to_8', 'c10_switch_ring__8_to_16', 'c10_switch_ring__4_to_16', 'c10_digit__b17_len5',
-             'c10_norm_first__b17_len5', 'c10_norm_middle__b17_len5', 'c10_norm_final__b17_len5'], cls='bounded', timeout=1500,
+             'c10_switch_ring__16_to_8', 'c10_switch_ring__8_to_16', 'c10_switch_ring__4_to_16', 'c10_digit__b17_len5'], cls='bounded', timeout=900,
              bound='slice lengths 3/5/9 (switch_ring 4..16), radix 17',
              functions=['znx_add_avx', 'znx_add_assign_avx', 'znx_sub_avx', 'znx_sub_assign_avx', 'znx_sub_negate_assign_avx', 'znx_negate_avx', 'znx_negate_assign_avx',
                         'znx_mul_power_of_two_avx', 'znx_mul_power_of_two_assign_avx', 'znx_mul_add_power_of_two_avx', 'znx_switch_ring_avx',
                         'znx_extract_digit_addmul_avx', 'znx_normalize_digit_avx', 'znx_normalize_{first,middle,final}_step*_avx (13 kernels)']),
-           K('poulpy-cpu-avx', 'verif_kani', [f'c10_norm_{g}__b{b}_len5' for b in (1, 52, 62) for g in ('first', 'middle', 'final')] + ['c10_digit__b52_len5'],
-             cls='bounded', tier='thorough', timeout=2400, bound='slice length 5, radices 1, 52, 62')],
+           K('poulpy-cpu-avx', 'verif_kani', [f'c10_norm_{g}__b{b}_len5' for b in (17, 1, 52, 62) for g in ('first', 'middle', 'final')] + ['c10_digit__b52_len5'],
+             cls='bounded', tier='thorough', timeout=2400, bound='slice length 5, radices 17, 1, 52, 62 (the 13 normalisation step kernels: 10-25 min per harness)')],
     trusted_base=[FMT_STUB, AVX_STUBS],
     assumptions=['comparison domain: inputs for which the reference kernel does not overflow in the debug profile (|a| <= 2^61 / 2^62)'],
     remainder='znx_automorphism_avx, FFT/IFFT/NTT and mat-vec AVX kernels (FMA, shuffles), FFT64 vs NTT120 families, ciphertext-level bit identity, sampling stream consumption (shared backend-independent code)',
